@@ -159,6 +159,9 @@ pub struct Run {
     pub known: Vec<KnownFinding>,
     pub matched: BTreeMap<String, (u64, String)>,
     pub violation_counts: BTreeMap<String, u64>,
+    /// Record mode (manual tool, never used by a registered check): write all unmatched (clause, case) pairs to this file
+    pub record: Option<String>,
+    pub recorded: Vec<String>,
 }
 
 impl Run {
@@ -190,6 +193,8 @@ impl Run {
             known: load_known_findings(property),
             matched: BTreeMap::new(),
             violation_counts: BTreeMap::new(),
+            record: std::env::var("VERIF_RECORD_FINDINGS").ok(),
+            recorded: vec![],
         }
     }
 
@@ -218,17 +223,20 @@ impl Run {
         for i in e.issues {
             let mut hit = None;
             for k in &self.known {
-                if k.clause == i.clause && (k.selector || k.cases.contains(&i.case)) {
+                if (k.clause == i.clause && (k.selector || k.cases.contains(&i.case))) || (k.clause == "*" && k.cases.contains(&format!("{}\t{}", i.clause, i.case))) {
                     hit = Some(k);
                     break;
                 }
             }
             match hit {
                 Some(k) => {
-                    let en = self.matched.entry(format!("{} [{}]", k.name, k.clause)).or_insert((0, k.what.clone()));
+                    let en = self.matched.entry(format!("{} [{}]", k.name, if k.clause == "*" { i.clause.as_str() } else { k.clause.as_str() })).or_insert((0, k.what.clone()));
                     en.0 += 1;
                 }
                 None => {
+                    if self.record.is_some() {
+                        self.recorded.push(format!("{}\t{}", i.clause, i.case));
+                    }
                     let c = self.violation_counts.entry(i.clause.clone()).or_insert(0);
                     *c += 1;
                     // keep at most 64 violations per clause in memory (all are counted)
@@ -271,6 +279,12 @@ impl Run {
 
     /// Write evidence, print verdict lines, return the process exit code.
     pub fn finish(mut self) -> i32 {
+        if let Some(path) = &self.record {
+            self.recorded.sort();
+            self.recorded.dedup();
+            let _ = std::fs::write(path, self.recorded.join("\n") + "\n");
+            println!("RECORDED {} unmatched (clause, case) pairs to {}", self.recorded.len(), path);
+        }
         let known = self.known.clone();
         let mut matched = std::mem::take(&mut self.matched);
         let violations: Vec<Issue> = self.issues.drain(..).collect();
@@ -351,6 +365,11 @@ impl Run {
             ("counters", J::Obj(self.counters.iter().map(|(k, v)| (k.clone(), J::Int(*v as i64))).collect())),
             ("violations_detail", J::Arr(vio_json)),
         ];
+        if let Ok(l) = std::env::var("VERIF_C05_DBG_LINE") {
+            if self.property == "C05" {
+                cov.push(("debug_assertions_build_run", J::s(l)));
+            }
+        }
         for (k, v) in self.extra.drain(..) {
             cov.push((Box::leak(k.into_boxed_str()), v));
         }
@@ -365,7 +384,7 @@ impl Run {
             ("violations", J::Int(nvio as i64)),
         ]);
         let _ = std::fs::create_dir_all(format!("{}/evidence", VERIF_DIR));
-        let path = format!("{}/evidence/{}.json", VERIF_DIR, self.property);
+        let path = std::env::var("VERIF_EVIDENCE_PATH").unwrap_or_else(|_| format!("{}/evidence/{}.json", VERIF_DIR, self.property));
         if let Err(e) = std::fs::write(&path, ev.render()) {
             eprintln!("MACHINERY: cannot write {}: {}", path, e);
             return 2;
